@@ -12,7 +12,6 @@ pub mod stub;
 use crate::{
     cancellations::{cancellations, CanceledRequests, RequestCancellation},
     context, trace,
-    util::TimeUntil,
     ChannelError, ClientMessage, Request, RequestName, Response, ServerError, Transport,
 };
 use futures::{prelude::*, ready, stream::Fuse, task::*};
@@ -27,7 +26,6 @@ use std::{
         atomic::{AtomicUsize, Ordering},
         Arc,
     },
-    time::SystemTime,
 };
 use tokio::sync::{mpsc, oneshot};
 use tracing::Span;
@@ -124,7 +122,7 @@ where
         skip(self, ctx, request),
         fields(
             rpc.trace_id = tracing::field::Empty,
-            rpc.deadline = %humantime::format_rfc3339(SystemTime::now() + ctx.deadline.time_until()),
+            rpc.deadline = %humantime::format_rfc3339(crate::util::deadline_as_system_time(&ctx.deadline)),
             otel.kind = "client",
             otel.name = %request.name())
         )]
